@@ -74,7 +74,9 @@ impl SlatepackArmor {
 		// Get the length of the header
 		let header_len = header_bytes.len() + 1;
 		// Skip the length of the header to read for the payload until the next period
-		let payload_bytes = armor_bytes[header_len as usize..]
+		let payload_bytes = armor_bytes
+			.get(header_len..)
+			.ok_or_else(|| Error::InvalidSlatepackData("Bad armor header".to_string()))?
 			.iter()
 			.take_while(|byte| **byte != b'.')
 			.cloned()
@@ -83,7 +85,9 @@ impl SlatepackArmor {
 		let payload_len = payload_bytes.len();
 		// Get footer bytes and verify them
 		let consumed_bytes = header_len + payload_len + 1;
-		let footer_bytes = armor_bytes[consumed_bytes as usize..]
+		let footer_bytes = armor_bytes
+			.get(consumed_bytes..)
+			.ok_or_else(|| Error::InvalidSlatepackData("Bad armor footer".to_string()))?
 			.iter()
 			.take_while(|byte| **byte != b'.')
 			.cloned()
@@ -99,6 +103,11 @@ impl SlatepackArmor {
 		let base_decode = bs58::decode(&clean_payload)
 			.into_vec()
 			.map_err(|_| Error::SlatepackDeser("Bad bytes".into()))?;
+		if base_decode.len() < 4 {
+			return Err(Error::InvalidSlatepackData(
+				"Bad slate error code- some data was corrupted".to_string(),
+			));
+		}
 		let error_code = &base_decode[0..4];
 		let slatepack_bytes = &base_decode[4..];
 		// Make sure the error check code is valid for the slate data
